@@ -27,12 +27,46 @@ pub open spec fn cid_rank(p: CharPartition, cid: ClassId) -> int {
     }
 }
 
+// term level: for every valid class of x, the manager records a derivative of x and s holds it
+pub open spec fn has_tderiv_in(m: ReManager, s: Set<RegLan>, x: RegLan, cid: ClassId) -> bool {
+    m.deriv_cache@.contains_key(DerivKey(x, cid)) && s.contains(m.deriv_cache@[DerivKey(x, cid)])
+}
+
+pub open spec fn tclosed_at(m: ReManager, s: Set<RegLan>, x: RegLan) -> bool {
+    forall|cid: ClassId| cp_valid(dclass(x), cid) ==> #[trigger] has_tderiv_in(m, s, x, cid)
+}
+
+// y is obtained from e0 by n steps of the manager's recorded derivatives
+pub open spec fn treach_n(m: ReManager, e0: RegLan, y: RegLan, n: nat) -> bool
+    decreases n
+{
+    if n == 0 { y == e0 }
+    else { exists|x: RegLan, cid: ClassId| #![trigger tderiv(m, x, cid, y)] treach_n(m, e0, x, (n - 1) as nat) && cp_valid(dclass(x), cid) && tderiv(m, x, cid, y) }
+}
+
+pub open spec fn treach(m: ReManager, e0: RegLan, y: RegLan) -> bool {
+    exists|n: nat| #[trigger] treach_n(m, e0, y, n)
+}
+
+pub open spec fn all_treach(m: ReManager, s: Set<RegLan>, e0: RegLan) -> bool {
+    forall|x: RegLan| #[trigger] s.contains(x) ==> treach(m, e0, x)
+}
+
+// s is THE set of terms generated from e0 by the recorded derivatives: it holds e0, every member has
+// all its class derivatives recorded and in s, and every member is generated from e0
+pub open spec fn term_closure(m: ReManager, e0: RegLan, s: Set<RegLan>) -> bool {
+    &&& s.contains(e0)
+    &&& forall|x: RegLan| #[trigger] s.contains(x) ==> tclosed_at(m, s, x)
+    &&& all_treach(m, s, e0)
+}
+
 // invariant of the enumeration: every popped term has all its derivatives in the set
 pub open spec fn explored_ok(m: ReManager, q: BfsQueue<RegLan>) -> bool {
     &&& mgr_wf2(m)
     &&& q_wf(q)
     &&& forall|x: RegLan| #[trigger] q.set@.contains(x) ==> owned(m, x)
     &&& forall|x: RegLan| #[trigger] q_done(q, x) ==> closed_at(q.set@, x)
+    &&& forall|x: RegLan| #[trigger] q_done(q, x) ==> tclosed_at(m, q.set@, x)
 }
 
 pub open spec fn dclass(e: RegLan) -> CharPartition { *e.deriv_class }
